@@ -537,6 +537,13 @@ class C18(Check):
     ]
     search_budget_s = 150
 
+    _kinds = None
+
+    def _count(self, kind):
+        if self._kinds is None:
+            self._kinds = {}
+        self._kinds[kind] = self._kinds.get(kind, 0) + 1
+
     # ---- generation
     def gen(self, tier, rng):
         quick = tier == "quick"
@@ -597,6 +604,7 @@ class C18(Check):
                     if s in seen:
                         continue
                     seen.add(s)
+                    self._count("mut:" + kind)
                     yield {"s": s, "exp": None, "u": "mut", "kind": "mut:" + kind}
         # dedicated cases of the known findings (few, last)
         for s in ["@data_glob:a:b@*", "x or @data_glob:a:b@*", "not @data_re:a:0@.*", "@data_literal:l:x@y and a",
@@ -607,6 +615,7 @@ class C18(Check):
 
     def printed(self, t, mode, rng):
         toks = print_expr(t, mode, rng)
+        self._count("printed:" + mode)
         return {"s": text(toks), "exp": strip_style(t), "u": "main", "kind": "printed:" + mode}
 
     def search(self, rng, deadline):
@@ -735,6 +744,7 @@ class C18(Check):
     # ---- checks outside the case scheme
     def extra_checks(self, tier, rng, report):
         fails = report.setdefault("extra_failing", [])
+        report["hist"].update(self._kinds or {})
         # 1. the model's is_space against str.isspace on every code point
         top = 0x110000
         cps = list(range(top)) if tier != "quick" else list(range(0x3200)) + list(range(0x3200, top, 61))
